@@ -20,7 +20,8 @@ type c13Case struct {
 	Trail  string   `json:"trailing"`
 	Fn     string   `json:"function"`
 	ByteRd bool     `json:"byte_reader"`
-	StopAt int      `json:"handler_returns_false_at,omitempty"` // 1-based; 0 = never
+	StopAt int      `json:"handler_returns_false_at,omitempty"`          // 1-based; 0 = never
+	Stalls int      `json:"empty_reads_before_every_delivery,omitempty"` // patterned schedule: (0,nil) this many times before each delivery
 }
 
 func init() {
@@ -43,6 +44,8 @@ type scriptReader struct {
 	maxAsk   int
 	horizon  int
 	overHorz bool
+	stalls   int // patterned schedule: this many (0,nil) answers before every delivery (no choice points)
+	stalled  int
 }
 
 func (r *scriptReader) Read(p []byte) (int, error) {
@@ -56,6 +59,14 @@ func (r *scriptReader) Read(p []byte) (int, error) {
 	}
 	if len(p) == 0 {
 		return 0, nil
+	}
+	if r.stalls > 0 {
+		if r.stalled < r.stalls {
+			r.stalled++
+			return 0, nil
+		}
+		r.stalled = 0
+		r.empties = 2 // no further empty reads from choices: the run stays below the 100 a reader may legally deliver in a row
 	}
 	rem := len(r.data) - r.pos
 	// options, default first
@@ -152,7 +163,7 @@ func c13Exec(c *Ctx, k c13Case, choices []int) {
 			off += len(k.Sep)
 		}
 	}
-	sr := &scriptReader{data: []byte(stream), horizon: 6*len(stream) + 60}
+	sr := &scriptReader{data: []byte(stream), horizon: (6*len(stream) + 60) * (k.Stalls + 1), stalls: k.Stalls}
 	var rdr io.Reader = sr
 	var sbr *scriptByteReader
 	if k.ByteRd {
@@ -377,7 +388,7 @@ func c13Exec(c *Ctx, k c13Case, choices []int) {
 
 func c13Run(c *Ctx) {
 	mustBeDefault(c)
-	c.S.Rule = "cases = (stream, function, reader kind, handler stop point); streams are concatenations of 1..3 documents (XML: <a/>, <a>x</a>, <a b=\"1\"><c/>t</a>, a document with XML declaration; JSON: {\"a\":1}, a string value with braces and quotes, a string ending in an escaped backslash, a string with an escaped backslash followed by an escaped quote, nested object/array with a bracket in a string) with separators {none, space, newline+tab} and optional trailing blanks; functions NewMapXmlReader[Raw], NewMapXmlSeqReader[Raw], NewMapJsonReader[Raw], HandleXmlReader[Raw], HandleJsonReader[Raw] (map handler returning false at every k), x2j-wrapper ToMap / XmlMsgsFromReader; reader kinds plain io.Reader and io.Reader+io.ByteReader. Schedules (E-choice): every Read call is a choice point - default full delivery, short read, (0,nil) (at most 2 in a row), final data together with io.EOF - explored exhaustively for deviation bound 0,1,2 (3 in thorough on single documents). Oracle: results = direct decodes in order then io.EOF, no over-read into the next document, Raw values as documented, handlers once per document in order and stop on false, termination within the reader horizon. non-trivial = executions with at least one deviation (counted in counters.deviating_schedules)."
+	c.S.Rule = "cases = (stream, function, reader kind, handler stop point); streams are concatenations of 1..3 documents (XML: <a/>, <a>x</a>, <a b=\"1\"><c/>t</a>, a document with XML declaration; JSON: {\"a\":1}, a string value with braces and quotes, a string ending in an escaped backslash, a string with an escaped backslash followed by an escaped quote, nested object/array with a bracket in a string) with separators {none, space, newline+tab} and optional trailing blanks; functions NewMapXmlReader[Raw], NewMapXmlSeqReader[Raw], NewMapJsonReader[Raw], HandleXmlReader[Raw], HandleJsonReader[Raw] (map handler returning false at every k), x2j-wrapper ToMap / XmlMsgsFromReader; reader kinds plain io.Reader and io.Reader+io.ByteReader. Schedules (E-choice): every Read call is a choice point - default full delivery, short read, (0,nil) (at most 2 in a row), final data together with io.EOF - explored exhaustively for deviation bound 0,1,2 (3 in thorough on single documents); plus patterned schedules with 50 and 97 empty reads before every delivery (bound 1 over the remaining choices). Oracle: results = direct decodes in order then io.EOF, no over-read into the next document, Raw values as documented, handlers once per document in order and stop on false, termination within the reader horizon. non-trivial = executions with at least one deviation (counted in counters.deviating_schedules)."
 	c.S.Assumptions = []string{"JSON raw = the document with JSON-insignificant white space removed (the implementation strips it by design)", "the empty JSON object {} is not in the alphabet (handlers treat an empty Map as 'nothing arrived yet' by design)", "an io.ByteReader cannot legally deliver a byte together with an error, so that kind has only the default schedule"}
 	xmlDocs := []string{`<a/>`, `<a>x</a>`, `<a b="1"><c/>t</a>`, `<?xml version="1.0"?><a>y</a>`}
 	jsonDocs := []string{`{"a":1}`, `{"a":"}{\""}`, `{"a":"x\\"}`, `{"a":{"b":[1,{"c":"]"}]}}`, `{"e":"\\\"{"}`, `{"p":"C:\\dir\\ "}`}
@@ -428,6 +439,18 @@ func c13Run(c *Ctx) {
 	}
 	build(xmlDocs, xmlFns)
 	build(jsonDocs, jsonFns)
+	// patterned schedules: 50 / 97 empty reads before every delivery (legal: fewer than 100 in a row), on the
+	// plain-reader cases with two documents or trailing blanks
+	for _, k := range append([]c13Case(nil), cases...) {
+		if k.ByteRd || (len(k.Docs) < 2 && k.Trail == "") || len(k.Docs) > 2 {
+			continue
+		}
+		for _, st := range []int{50, 97} {
+			k2 := k
+			k2.Stalls = st
+			cases = append(cases, k2)
+		}
+	}
 	if c.Shard == 0 {
 		c.Count("cases", int64(len(cases)))
 	}
@@ -445,6 +468,9 @@ func c13Run(c *Ctx) {
 		}
 		if k.ByteRd {
 			bound = 0
+		}
+		if k.Stalls > 0 {
+			bound = 1
 		}
 		c.S.States++
 		c.S.Evaluations++
